@@ -37,3 +37,16 @@ def runOps : FS → List FsOp → FS × Option FErr
 def applyAll (fs : FS) (ops : List FsOp) : FS := ops.foldl (fun s op => (s.applyOp op).1) fs
 
 end Gtree
+
+namespace Gtree
+/-- The massive mode's mkdirer at the granularity of roots: the workers take the roots in the order the
+    scheduler hands them out; each checks that ITS root does not exist yet (pipeline_tree_mkdirer.go:
+    `isExistRoot([]*Node{root})`) and creates it. -/
+def mkdirRootsEach (target : Bytes) (exts : List Bytes) : FS → List (List Visit) → FS × Option MkErr
+  | fs, [] => (fs, none)
+  | fs, vs :: rest =>
+    if anyRootExists fs target [vs] then (fs, some .exist)
+    else match mkNodes target exts fs vs with
+      | (fs1, some e) => (fs1, some (.os e))
+      | (fs1, none) => mkdirRootsEach target exts fs1 rest
+end Gtree
